@@ -8,8 +8,8 @@ from proto import NOINLINE, is_removed
 
 EXPLAIN["C10"] = (
     "Decides the structure of the policy, both flavours: F1 the insertion comparators (Optimistic: val >= next size, i.e. descending; Pessimistic: val <= next size, "
-    "ascending), the first-fit predicate of the pessimistic pop, and the dispatch of dealloc / the three allocation bodies from the Freelist kind to the matching "
-    "insertion / pop; F2 the position search advances only past nodes that failed the comparator and returns only at a node that satisfied it or at the tail; F3 the "
+    "ascending), the first-fit predicate of the pessimistic pop, the dispatch of dealloc / the three allocation bodies from the Freelist kind to the matching "
+    "insertion / pop, and the re-insertion of a pop's remainder through the insertion of the same kind; F2 the position search advances only past nodes that failed the comparator and returns only at a node that satisfied it or at the tail; F3 the "
     "optimistic pop takes the head (lo(sentinel)) and fails exactly when size > head size, the pessimistic pop fails exactly when the search found nothing; F4 "
     "validate_segment and try_new_segment decide by the same conditions (sibling agreement), so a remainder is re-inserted iff it would be accepted; F5 the "
     "acceptance condition (C01-R3); F6 Freelist::None never touches a list word and never calls a pop body. That the list is finite, acyclic, disjoint and sorted "
@@ -32,7 +32,7 @@ def closure_cmp(ctx, path):
     return None
 
 
-@rule("C10-F1", "C10", 14, "comparators and dispatch: Optimistic inserts with val >= next (descending), Pessimistic with val <= next (ascending) and pops the first "
+@rule("C10-F1", "C10", 18, "comparators and dispatch: Optimistic inserts with val >= next (descending), Pessimistic with val <= next (ascending) and pops the first "
       "node with size <= next; each Freelist kind dispatches to its own insertion / pop")
 def f1(ctx):
     for fl in FLAVOURS:
@@ -49,6 +49,13 @@ def f1(ctx):
                 v = searches[0]["args"][1]
                 okv = tag(v) == "field" and v[2] == "data_size" or "data_size" in show(v)
                 yield Ob(key_of("C10-F1", b.path, "key-is-data-size"), okv, "the insertion key is the new segment's data size (%s)" % short(v, 60), ctx.loc(searches[0]))
+        # the remainder of a pop goes back through the insertion of the same kind (a list is only ever ordered by one comparator)
+        for kind in ("optimistic", "pessimistic"):
+            b = ctx.facts.one(r"^%s::Arena::alloc_slow_path_%s$" % (fl, kind))
+            ev, res = ctx.eval(b, no_inline=NOINLINE)
+            back = [e for e in res.log if e["kind"] == "call" and not e["chain"] and re.search(r"::(optimistic|pessimistic)_dealloc$", e["callee"])]
+            ok = len(back) >= 1 and all(e["callee"].endswith("::%s_dealloc" % kind) for e in back)
+            yield Ob(key_of("C10-F1", b.path, "remainder-same-policy"), ok, "remainder re-inserted by %s" % sorted(set(e["callee"].split("::")[-1] for e in back)), ctx.loc(back[0]) if back else b.loc())
         # dispatch
         b = ctx.facts.one(r"^<%s::Arena as allocator::Allocator>::dealloc$" % fl)
         ev, res = ctx.eval(b, no_inline=NOINLINE)
